@@ -667,7 +667,13 @@ func decodeConnectUnary(r *Response, reqCT, ct string, status int, hdr http.Head
 // TerminatorArrived reports whether the delivered prefix of a response body
 // (plus HTTP trailers, if delivered) contains the protocol's end-of-stream
 // marker.
-func TerminatorArrived(p Proto, streaming bool, prefix []byte, full int, trailer http.Header) bool {
+func TerminatorArrived(p Proto, streaming bool, hdr http.Header, prefix []byte, full int, trailer http.Header) bool {
+	if p != Connect {
+		// trailers-only: a body-less response whose headers carry the status
+		if _, n := single(hdr, "Grpc-Status"); n > 0 && full == 0 {
+			return true
+		}
+	}
 	switch {
 	case p == Connect && !streaming:
 		return len(prefix) == full
